@@ -440,24 +440,37 @@ func ruleCppPrimitiveFamilies(c *core.Ctx) {
 		c.Undecided(rule, "refs/wire.json", 0, err.Error())
 		return
 	}
-	rows, d, _ := geeRows(c, "internal/cpp/binary", "typeDefinitionRwFunction")
+	_, d, p := c.Func("internal/cpp/binary", "typeDefinitionRwFunction")
 	if d == nil {
 		c.Undecided(rule, "anchor", 0, "typeDefinitionRwFunction not found")
 		return
 	}
+	fams := map[string]bool{}
+	for _, f := range ref.Cpp {
+		fams[f] = true
+	}
 	got := map[string]string{}
-	for _, r := range rows {
-		if r.Kind != "return" || r.In == "" {
-			continue
-		}
-		for _, g := range r.Guards {
-			if strings.HasPrefix(g, "PrimitiveDefinition∈{") {
-				for _, prim := range strings.Split(g[len("PrimitiveDefinition∈{"):len(g)-1], "|") {
-					prim = strings.Trim(prim, "\"")
-					if strings.HasPrefix(prim, "dsl.") {
-						prim = "complexfloat64" // dsl.PrimitiveComplexFloat64 is the only primitive spelled by identifier in that switch
+	// the table may be a closure of the function or a helper of the package it calls: every `return "<family>"`
+	// guarded by a test on a PrimitiveDefinition value is a row
+	for _, fd := range declsCalledInPkg(c, d, 2) {
+		x := &gee.Extractor{Info: p.TypesInfo, Fset: c.Fset}
+		for _, r := range x.Extract(fd.Name.Name, fd) {
+			if r.Kind != "return" || !fams[r.Tmpl] {
+				continue
+			}
+			for _, g := range r.Guards {
+				if strings.HasPrefix(g, "PrimitiveDefinition∈{") {
+					for _, prim := range strings.Split(g[len("PrimitiveDefinition∈{"):len(g)-1], "|") {
+						prim = strings.Trim(prim, "\"")
+						if strings.HasPrefix(prim, "dsl.") {
+							prim = "complexfloat64" // dsl.PrimitiveComplexFloat64 is the only primitive spelled by identifier in that switch
+						}
+						if old, dup := got[prim]; dup && old != r.Tmpl {
+							got[prim] = old + "|" + r.Tmpl
+						} else {
+							got[prim] = r.Tmpl
+						}
 					}
-					got[prim] = r.Tmpl
 				}
 			}
 		}
